@@ -375,17 +375,19 @@ def record(fn: Fn, k0: int, ndirs: int, seed: int) -> Tuple[List[dict], Optional
             d = torch.randn(t.shape, generator=gen, dtype=T64)
             d = d / d.abs().max()
             eps = eps0 * max(1e-2, float(base[j].abs().max()) if base[j].numel() else 1.0)
-            ladder = []
+            ladder, onesided = [], []
             with torch.no_grad():
                 for lv in range(5):  # step ladder e, e/2, ..., e/16: judge on the pair of steps whose quotients agree best
                     e = eps / 2 ** lv
                     fp = float(f([b + e * d if i == j else b for i, b in enumerate(base)]))
                     fm = float(f([b - e * d if i == j else b for i, b in enumerate(base)]))
                     ladder.append((fp - fm) / (2 * e))
+                    onesided.append(((fp - float(F0)) / e) - ((float(F0) - fm) / e))  # forward minus backward quotient
                 f([b for b in base])  # restore module parameters
             absnoise = lambda i: mach * max(abs(float(F0)), 1.0) * 4 / (eps / 2 ** (i + 1))  # noqa: E731  round-off of the finer quotient of pair i
             best = min(range(4), key=lambda i: abs(ladder[i] - ladder[i + 1]) + absnoise(i) if all(math.isfinite(q) for q in ladder[i:i + 2]) else float("inf"))
             qs = [ladder[best], ladder[best + 1]]
+            asym = [onesided[best], onesided[best + 1]]
             eps = eps / 2 ** best
             reaches = g is not None
             gd = float((g.to(T64) * d).sum()) if reaches else 0.0
@@ -401,6 +403,8 @@ def record(fn: Fn, k0: int, ndirs: int, seed: int) -> Tuple[List[dict], Optional
                 finite, gd, qs = (False if not math.isfinite(gd) else finite), 0.0, [0.0, 0.0]
             evs.append(dict(op=fn.name, family=fn.family, wrt=lab, k=k0 + len(evs) + 1, reaches=reaches, finite=finite, pw=grid_based,
                             gd=int(round(gd / m * 1e6)), fd1=int(round(qs[0] / m * 1e6)), fd2=int(round(qs[1] / m * 1e6)),
+                            asym1=min(int(abs(asym[0]) / m * 1e6), 10 ** 9) if all(math.isfinite(a) for a in asym) else 0,
+                            asym2=min(int(abs(asym[1]) / m * 1e6), 10 ** 9) if all(math.isfinite(a) for a in asym) else 0,
                             noise=min(int(noise * 1e6) + 1, 10 ** 9), raw=dict(gd=gd, fd=qs, F=float(F0), eps=eps, f32=f32, backward_error=backward_error)))
     return evs, None
 
@@ -432,7 +436,7 @@ def run(ctx: Ctx) -> None:
         if why:
             skipped[fn.name] = why
             continue
-        traces.append([dict(op=fn.name, family=fn.family, wrt="", k=0, reaches=True, finite=True, pw=False, gd=0, fd1=0, fd2=0, noise=0)] + evs)
+        traces.append([dict(op=fn.name, family=fn.family, wrt="", k=0, reaches=True, finite=True, pw=False, gd=0, fd1=0, fd2=0, asym1=0, asym2=0, noise=0)] + evs)
         ctx.count(n=len(evs))
     send = [[{k: v for k, v in e.items() if k != "raw"} for e in t] for t in traces]
     rej, nval = validate(ctx, "Trace_Grad", TRACE_CFG, send, all_rejections=True)
@@ -444,7 +448,7 @@ def run(ctx: Ctx) -> None:
                           f": autograd directional derivative {e['raw']['gd']:.6g}, central differences {e['raw']['fd'][0]:.6g} / "
                           f"{e['raw']['fd'][1]:.6g} (steps {e['raw']['eps']:.1e}, /2; F = {e['raw']['F']:.6g})", dict(fn=e["op"], wrt=e["wrt"]))
     ctx.traces = nval
-    judged = sum(1 for t in traces for e in t[1:] if abs(e["fd1"] - e["fd2"]) <= 20000)
+    judged = sum(1 for t in traces for e in t[1:] if abs(e["fd1"] - e["fd2"]) <= 20000 and not (e["asym2"] > 10000 and 4 * e["asym2"] > 3 * e["asym1"]))
     total = sum(len(t) - 1 for t in traces)
     ctx.notes["functions"] = len(fns)
     ctx.notes["functions_recorded"] = len(traces)
@@ -460,10 +464,10 @@ def run(ctx: Ctx) -> None:
     ctx.sample(dict(recorded={k: v for k, v in traces[0][1].items()}))
     # binding self-test
     probe = Ctx(ctx.prop, ctx.tier, ctx.seed)
-    bad = [[dict(op="x", family="", wrt="", k=0, reaches=True, finite=True, pw=False, gd=0, fd1=0, fd2=0, noise=0),
-            dict(op="x", family="", wrt="p", k=1, reaches=True, finite=True, pw=False, gd=1000000, fd1=990000, fd2=990500, noise=10),
-            dict(op="x", family="", wrt="p", k=2, reaches=False, finite=True, pw=False, gd=0, fd1=1000000, fd2=1000000, noise=10),
-            dict(op="x", family="", wrt="p", k=3, reaches=True, finite=True, pw=False, gd=1000000, fd1=1000100, fd2=1000050, noise=10)]]
+    bad = [[dict(op="x", family="", wrt="", k=0, reaches=True, finite=True, pw=False, gd=0, fd1=0, fd2=0, asym1=0, asym2=0, noise=0),
+            dict(op="x", family="", wrt="p", k=1, reaches=True, finite=True, pw=False, gd=1000000, fd1=990000, fd2=990500, asym1=0, asym2=0, noise=10),
+            dict(op="x", family="", wrt="p", k=2, reaches=False, finite=True, pw=False, gd=0, fd1=1000000, fd2=1000000, asym1=0, asym2=0, noise=10),
+            dict(op="x", family="", wrt="p", k=3, reaches=True, finite=True, pw=False, gd=1000000, fd1=1000100, fd2=1000050, asym1=0, asym2=0, noise=10)]]
     r2, _ = validate(probe, "Trace_Grad", TRACE_CFG, bad, label="trace-selftest", all_rejections=True)
     if sorted(x[0] for x in r2.get(0, [])) != [1, 2]:
         raise MachineryError(f"binding self-test failed: {r2}")
@@ -483,7 +487,7 @@ def replay(ctx: Ctx, data: Dict[str, Any]) -> None:
     for i, fn in enumerate(fns):
         if fn.name == c["fn"]:
             evs, why = record(fn, 0, 6, i)
-            send = [[dict(op=fn.name, family=fn.family, wrt="", k=0, reaches=True, finite=True, pw=False, gd=0, fd1=0, fd2=0, noise=0)] + [{k: v for k, v in e.items() if k != "raw"} for e in evs]]
+            send = [[dict(op=fn.name, family=fn.family, wrt="", k=0, reaches=True, finite=True, pw=False, gd=0, fd1=0, fd2=0, asym1=0, asym2=0, noise=0)] + [{k: v for k, v in e.items() if k != "raw"} for e in evs]]
             rej, _ = validate(ctx, "Trace_Grad", TRACE_CFG, send, all_rejections=True)
             for line, clause in rej.get(0, []):
                 ctx.violation(dict(layer="fd", op=fn.name.split("[")[0], what=clause), f"{fn.name}: {clause}", c)
